@@ -66,7 +66,7 @@ def run(rep):
 
 def run_batch(rep, rng, quick, lo, hi, totals):
     # 1. TLC enumerates the case space and checks the laws of the grammar on every case
-    res = tlc.run(rep.pid, "C13", ENUM_CFG, env={"TIER": rep.tier, "O1LO": lo, "O1HI": min(hi, 55)}, timeout=1500, tag="enum")
+    res = tlc.run(rep.pid, "C13", ENUM_CFG, env={"TIER": rep.tier, "O1LO": lo, "O1HI": hi}, timeout=1500, tag="enum")
     rep.add_tlc("C13.Enum+Laws(JsGrammar) roots %d..%d" % (lo, hi), res)
     seen, cases = set(), []
     for c in res.records:
